@@ -21,6 +21,12 @@ def argOracle (s : String) : Option (List (List Char × List Char)) :=
 
 def bip39Langs : List (List Nat) := Gen.bip39Langs.map (·.2)
 
+/-- the lists auto-detection of an Electrum-v2 sentence may end in (since the F-ev2-foreign-language repair): the four languages Electrum v2
+defines, in the order of the BIP-39 enumeration the finder walks.  Detecting over all nine lists and refusing a foreign result is the same
+function: the only lists sharing a complete sentence are English/French and the two Chinese ones, and in both pairs the allowed list comes first. -/
+def v2DetectLangs : List (List Nat) :=
+  (Gen.bip39Langs.filter fun l => l.1 == "CHINESE_SIMPLIFIED" || l.1 == "ENGLISH" || l.1 == "PORTUGUESE" || l.1 == "SPANISH").map (·.2)
+
 /-- `some none` = auto-detect -/
 def argLang (tbl : List (String × List Nat)) (s : String) : Option (Option (List Nat)) :=
   if s == "auto" then some none else (tbl.lookup s).map some
@@ -172,7 +178,7 @@ def mnemonicOps : List (String × Op) := [
         let ws ← bip39Sentence o s
         if !(ws.length = 12 || ws.length = 24) then throw Err.value
         if !v2Valid ws t then throw Err.value
-        pure (outBytes (← electrumV2DecodeIdx bip39Langs lang ws))
+        pure (outBytes (← electrumV2DecodeIdx v2DetectLangs lang ws))
       pure (reply r id)
     | _ => none),
   ("ev2seed", fun a => match a with          -- ev2seed lang|auto sentence oracle nfkd(salt)
@@ -183,7 +189,7 @@ def mnemonicOps : List (String × Op) := [
       let salt ← argBytes salt
       let r : R String := do
         let ws ← bip39Sentence o s
-        pure (outBytes (← electrumV2Seed (fun ws => v2Valid ws none) bip39Langs lang ws salt))
+        pure (outBytes (← electrumV2Seed (fun ws => v2Valid ws none) v2DetectLangs lang ws salt))
       pure (reply r id)
     | _ => none)
 ]
